@@ -21,6 +21,8 @@ import ModVerif.Proofs.GoRtLemmasStr
 import ModVerif.Proofs.GoRtLemmasModfile
 import ModVerif.Proofs.GoRtLemmasLex
 import ModVerif.Proofs.ModfileLex
+set_option linter.unusedSimpArgs false
+set_option linter.unusedVariables false
 namespace ModVerif.TieFnLex
 open ModVerif ModVerif.GoRt ModVerif.GoRtStr ModVerif.GoRtModfile ModVerif.GoRtLex ModVerif.Modfile
 open ModVerif.Drv.LexOps.G (isPrintI isSpaceI)
